@@ -575,7 +575,29 @@ def unit_random(U):
         lb.lb_cases, lb.lb_fails, exhaustive=True, distinct=lb.lb_cases, sample=lb.sample)
 
 
+def unit_semicolons(U):
+    """k "v" lines have no escape for ';' - but a ';' that is not part of the line's field separator ('; ' or ' ; ': the
+    semicolon there is followed by a blank) is ordinary text between the quotes, in whichever attribute it stands"""
+    ck = Checker()
+    vals = ("kinase;putative", "a;b;c", "x;", ";x", "p;;q", "EC:1.1;2.2")
+    for D in DIALECTS:
+        if not D.gtf or D.sep == ";":
+            continue
+        for v in vals:
+            for pos in (0, 1, 2):
+                items = [("gene_id", ["g1"]), ("transcript_id", ["t1"])]
+                items.insert(pos, ("note", [v]))
+                ck.run(COLS_A, items, D, [])
+            ck.run(COLS_A, [("note", [v]), ("gene_id", ["g1"]), ("tag", ["u;v"] if D.repeated else ["u;v"])], D, ["extra"])
+    U.bounded_result(
+        "C07.bounded.semicolon_in_quotes",
+        "k \"v\" lines whose values hold a ';' that is not followed by a blank (field separator '; ' or ' ; ') parse to those values and print back byte for byte",
+        "16 k \"v\" dialects with a blank in the separator x 6 values x first / middle / last attribute (+ two such values, extra column)",
+        ck.cases, ck.fails, exhaustive=True, distinct=len(ck.seen), sample=ck.sample)
+
+
 UNITS = [
+    ("bounded.semicolons", unit_semicolons),
     ("bounded.shapes", unit_shapes),
     ("bounded.escapes", unit_escapes),
     ("bounded.columns", unit_columns),
